@@ -35,6 +35,7 @@ func vYield()          {}
 func vUnwind(n int)    {}
 func vSteps(n int)     {}
 func vSliceCap(n int)  {}
+func vSincePositive()  {}
 
 // ---- text vocabulary (native bodies build real strings with the requested display width)
 
@@ -76,3 +77,24 @@ func vMakeText(w, nl int) string {
 func vTextWidth(s string) int { return runewidth.StringWidth(s) }
 func vTextLen(s string) int   { return len(s) }
 func vTextNL(s string) int    { return strings.Count(s, "\n") }
+
+// ---- ghost arrays (oracle bookkeeping)
+
+var vGhost = map[string][]int64{}
+var vGhostF = map[string][]float64{}
+
+func vGhostPut(tag string, v int64)    { vGhost[tag] = append(vGhost[tag], v) }
+func vGhostPutF(tag string, v float64) { vGhostF[tag] = append(vGhostF[tag], v) }
+func vGhostLen(tag string) int         { return len(vGhost[tag]) + len(vGhostF[tag]) }
+func vGhostAt(tag string, i int) int64 {
+	if i < len(vGhost[tag]) {
+		return vGhost[tag][i]
+	}
+	return 0
+}
+func vGhostAtF(tag string, i int) float64 {
+	if i < len(vGhostF[tag]) {
+		return vGhostF[tag][i]
+	}
+	return 0
+}
